@@ -953,6 +953,30 @@ fn read_all_matrix<V: VirtualFileSystem>(backend: &str, vfs: &V, dir: &str) -> V
         }
     }
     let _ = vfs.remove(&p);
+    // a node that is neither file, directory nor link (a fifo; real filesystem only): whatever remove() does
+    // with it, assert_vfs_remove! may only return when the path is gone afterwards
+    if backend.contains("Stdfs") {
+        let fifo = format!("{}/ra-fifo", dir);
+        let c = std::ffi::CString::new(fifo.clone()).unwrap();
+        if unsafe { libc::mkfifo(c.as_ptr(), 0o644) } == 0 {
+            let r = catch_unwind(AssertUnwindSafe(|| {
+                assert_vfs_remove!(vfs, &fifo);
+            }));
+            let still = std::fs::symlink_metadata(&fifo).is_ok();
+            if r.is_ok() && still {
+                out.push((
+                    "assert_vfs_remove! · path is a fifo · passes although its postcondition does not hold (vacuous pass)".to_string(),
+                    format!("{}: mkfifo {}; assert_vfs_remove! returned, the fifo still exists", backend, fifo),
+                ));
+            } else if r.is_err() && !still {
+                out.push((
+                    "assert_vfs_remove! · path is a fifo · panics although its postcondition holds".to_string(),
+                    format!("{}: mkfifo {}; assert_vfs_remove! panicked although the fifo is gone", backend, fifo),
+                ));
+            }
+            let _ = std::fs::remove_file(&fifo);
+        }
+    }
     out
 }
 
